@@ -102,7 +102,7 @@ def run_one(h, log):
     timeout = h.get("timeout", 900)
     try:
         p = subprocess.Popen(cmd, cwd=CRATE, env=env(), stdout=subprocess.PIPE, stderr=subprocess.STDOUT, text=True,
-                             preexec_fn=_limit(h.get("mem_gb", 12)))
+                             preexec_fn=_limit(h.get("cap_gb", 24)))
         try:
             out, _ = p.communicate(timeout=timeout)
         except subprocess.TimeoutExpired:
@@ -153,7 +153,7 @@ def playback(h, log):
                                              "--exact", "--output-format", "terse"]
     try:
         r = subprocess.run(cmd, cwd=CRATE, env=env(), stdout=subprocess.PIPE, stderr=subprocess.STDOUT, text=True,
-                           timeout=h.get("timeout", 900) * 2, preexec_fn=_limit(h.get("mem_gb", 12) * 2))
+                           timeout=h.get("timeout", 900) * 2, preexec_fn=_limit(h.get("cap_gb", 24) * 2))
     except subprocess.TimeoutExpired:
         return {"found": False, "note": "concrete playback timed out"}
     out = r.stdout
@@ -193,7 +193,7 @@ def run_harnesses(pid, specs, tier, log):
     used = [0.0]
 
     def job(h):
-        need = min(h.get("mem_gb", 6), budget)
+        need = min(h.get("mem_gb", 4), budget)
         with lock:
             while used[0] + need > budget:
                 lock.wait()
